@@ -23,6 +23,10 @@ type Fs struct {
 	CrashAt int // crash at the CrashAt-th mutating call (0-based); <0 = never
 	Count   int // mutating calls seen so far
 	Dead    bool
+	// Peer: another wrapper of the same (simulated) process — the metadata file system of a
+	// single-bucket backend; when one crashes both are dead.  Crashed: the cut call was this wrapper's.
+	Peer    *Fs
+	Crashed bool
 	Log     []string
 	// ReadFailAfter >= 0: the read-side calls (Stat, Open, read-only OpenFile) after the first
 	// ReadFailAfter of them fail with ErrIO; < 0: never
@@ -47,12 +51,19 @@ func (f *Fs) step(what string) bool {
 	}
 	f.Log = append(f.Log, what)
 	if f.CrashAt >= 0 && f.Count == f.CrashAt {
-		f.Dead = true
+		f.die()
 		f.Count++
 		return true
 	}
 	f.Count++
 	return false
+}
+
+func (f *Fs) die() {
+	f.Dead, f.Crashed = true, true
+	if f.Peer != nil {
+		f.Peer.Dead = true
+	}
 }
 
 func (f *Fs) Name() string { return "faultfs" }
@@ -177,7 +188,7 @@ func (f *File) Write(p []byte) (int, error) {
 	}
 	f.fs.Log = append(f.fs.Log, "write "+f.name)
 	if f.fs.CrashAt >= 0 && f.fs.Count == f.fs.CrashAt {
-		f.fs.Dead = true
+		f.fs.die()
 		f.fs.Count++
 		// a torn write: half of the buffer reaches the file
 		n, _ := f.File.Write(p[:len(p)/2])
